@@ -1,0 +1,20 @@
+// Copyright (c) The Thanos Community Authors.
+// Licensed under the Apache License 2.0.
+
+//go:build !verif
+
+package verifhook
+
+// Enabled reports whether the simulator hooks are compiled in.
+const Enabled = false
+
+func nop() {}
+
+// Go is deferred as the first statement of a goroutine body: defer verifhook.Go(site, idx)().
+func Go(site string, idx int) func() { return nop }
+
+// Yield marks a point at which a simulator may deschedule the calling goroutine.
+func Yield(site string) {}
+
+// NoPark opens a region in which Yield does not deschedule: defer verifhook.NoPark()().
+func NoPark() func() { return nop }
